@@ -11,7 +11,7 @@ from vf.model.rnd import urandoms
 
 PID = "C10"
 LEVEL = "exploration"
-BUDGET = {"quick": 3000, "thorough": 100000}
+BUDGET = {"quick": 6000, "thorough": 100000}
 HEADS = ["alpha", "beta", "gamma", "delta", "interface", "eps"]
 VALS = ["a", "b", "1", "lx"]
 NUMS = [0, 0, 7, 0.0]   # block()/block_if()/tuple tokens may be numbers (vlan ids, area 0, ...)
